@@ -292,16 +292,19 @@ func loadMaps(g *lookup) {
 
 func loadStrconv(g *VM) {
 	g.Set("strconv.ParseFloat", NewFunc(2, 2, func(vm *VM, args []Value) []Value {
+		// the number comes back with an error too: 0 for a syntax error, but the nearest
+		// representable value (±Inf) for one that is out of range
 		res, err := strconv.ParseFloat(args[0].String(), args[1].Int())
 		if err != nil {
-			return []Value{Float64(0), Error(err)}
+			return []Value{Float64(res), Error(err)}
 		}
 		return []Value{Float64(res), Nil()}
 	}))
 	g.Set("strconv.ParseInt", NewFunc(3, 2, func(vm *VM, args []Value) []Value {
+		// as above: a value out of range yields the largest (smallest) value of bitSize
 		res, err := strconv.ParseInt(args[0].String(), args[1].Int(), args[2].Int())
 		if err != nil {
-			return []Value{Int(0), Error(err)}
+			return []Value{Int(int(res)), Error(err)}
 		}
 		return []Value{Int(int(res)), Nil()}
 	}))
